@@ -28,6 +28,9 @@ type LogCase struct {
 	Mutations  []string    `json:"mutations"`
 	Violations []Violation `json:"violations,omitempty"`
 	Preview    string      `json:"file_preview,omitempty"`
+	// StaleTmp: per mille of the file's bytes that lie next to it as <log>.tmp, the
+	// leftover of a killed rewrite (0 = none)
+	StaleTmp int `json:"stale_tmp_permille,omitempty"`
 }
 
 // ---- mutators ----
@@ -255,28 +258,62 @@ var logMutators = []logMutator{
 		return []byte(strings.Join(ls, ""))
 	}},
 	{"cyclic-links", func(t *rapid.T, b []byte) []byte {
-		// what a hand merge of two branches can produce: A after B on one side, B after A on the other
-		var ids []string
-		for _, l := range splitKeep(b) {
-			var ev LogEvent
-			if json.Unmarshal([]byte(strings.TrimSpace(l)), &ev) == nil && ev.Type == "new_task" {
-				if id := ev.Str("id"); id != "" {
-					ids = append(ids, id)
-				}
-			}
-		}
+		// what a hand merge of two branches can produce: A after B on one side, B after A on
+		// the other. A is the task the check's `sequence` / `set` / `show` commands name.
+		ids := taskIDsInLog(b)
 		if len(ids) < 2 {
 			return b
 		}
 		a, c := ids[0], ids[len(ids)-1]
+		if top := c12FirstID(ids); top != "" && top != c {
+			a = top
+		}
 		out := string(b)
 		if !strings.HasSuffix(out, "\n") && out != "" {
 			out += "\n"
 		}
 		for _, e := range [][2]string{{a, c}, {c, a}} {
-			m := map[string]any{"type": "link", "ts": "2026-01-01T00:00:00Z", "data": map[string]any{"from_id": e[0], "to_id": e[1], "type": "depends"}}
+			out += linkLine(e[0], e[1])
+		}
+		return []byte(out)
+	}},
+	{"diamond-ladder", func(t *rapid.T, b []byte) []byte {
+		// a perfectly legal DAG with exponentially many paths: N1 after P1,Q1; P1,Q1 after N2;
+		// ... hanging under the task the check's `sequence` command starts its search from
+		ids := taskIDsInLog(b)
+		top := c12FirstID(ids)
+		tmpl := firstLineOfType(b, "new_task")
+		if top == "" || tmpl == nil {
+			return b
+		}
+		out := string(b)
+		if !strings.HasSuffix(out, "\n") && out != "" {
+			out += "\n"
+		}
+		n := between(t, 34, 40, "ladder.n")
+		node := func(kind byte, i int) string { return fmt.Sprintf("%c%c%c%c77", kind, 'A'+i/26, 'A'+i%26, 'Z') }
+		mk := func(id string) {
+			m := cloneJSON(tmpl)
+			if d, ok := m["data"].(map[string]any); ok {
+				d["id"], d["title"], d["epic_id"], d["state"], d["body"] = id, "ladder "+id, "", "todo", ""
+				if u, ok := d["uuid"].(string); ok && len(u) > 6 {
+					d["uuid"] = u[:len(u)-6] + strings.ToLower(id)
+				}
+			}
 			bb, _ := json.Marshal(m)
 			out += string(bb) + "\n"
+		}
+		for i := 0; i <= n; i++ {
+			mk(node('N', i))
+			if i < n {
+				mk(node('P', i))
+				mk(node('Q', i))
+			}
+		}
+		out += linkLine(top, node('N', 0))
+		for i := 0; i < n; i++ {
+			out += linkLine(node('N', i), node('P', i)) + linkLine(node('N', i), node('Q', i))
+			out += linkLine(node('P', i), node('N', i+1)) + linkLine(node('Q', i), node('N', i+1))
 		}
 		return []byte(out)
 	}},
@@ -350,6 +387,60 @@ type c12cmd struct {
 	readsLog bool
 }
 
+// c12IDs holds the ids of the base log of the case being generated (set before the
+// mutators run), so that a mutator can aim at the items the commands will name.
+var c12IDs []string
+
+// c12FirstID is the id the check's commands use as their first operand, if it is a task
+// of the log.
+func c12FirstID(tasks []string) string {
+	if len(c12IDs) == 0 {
+		return ""
+	}
+	for _, id := range tasks {
+		if id == c12IDs[0] {
+			return id
+		}
+	}
+	return ""
+}
+
+func taskIDsInLog(b []byte) []string {
+	var ids []string
+	for _, l := range splitKeep(b) {
+		var ev LogEvent
+		if json.Unmarshal([]byte(strings.TrimSpace(l)), &ev) == nil && ev.Type == "new_task" {
+			if id := ev.Str("id"); id != "" {
+				ids = append(ids, id)
+			}
+		}
+	}
+	return ids
+}
+
+func firstLineOfType(b []byte, typ string) map[string]any {
+	for _, l := range splitKeep(b) {
+		var m map[string]any
+		if json.Unmarshal([]byte(strings.TrimSpace(l)), &m) == nil && m["type"] == typ {
+			return m
+		}
+	}
+	return nil
+}
+
+func cloneJSON(m map[string]any) map[string]any {
+	bb, _ := json.Marshal(m)
+	var c map[string]any
+	_ = json.Unmarshal(bb, &c)
+	return c
+}
+
+func linkLine(from, to string) string {
+	m := map[string]any{"type": "link", "ts": "2026-01-01T00:00:00Z", "data": map[string]any{"from_id": from, "to_id": to, "type": "depends"}}
+	bb, _ := json.Marshal(m)
+	return string(bb) + "\n"
+}
+
 func c12Commands(ids []string) []c12cmd {
 	id := "AAAAAA"
 	id2 := "BBBBBB"
@@ -402,10 +493,13 @@ func runC12(c c12cmd, root string) Res {
 }
 
 // checkLogFile runs every command against the file content and applies the C12 oracle.
-func checkLogFile(content []byte, legacy bool, ids []string) (viol []string, reached int) {
+func checkLogFile(content []byte, legacy bool, ids []string, staleTmp int) (viol []string, reached int) {
 	root := writeLogStore("c12", content, legacy)
 	defer RemoveAll(root)
 	logPath := LogPath(root)
+	if staleTmp > 0 {
+		_ = os.WriteFile(logPath+".tmp", content[:len(content)*staleTmp/1000], 0o644)
+	}
 	badLine, hasBad := firstBadLine(content)
 	bad := func(f string, a ...any) { viol = append(viol, fmt.Sprintf(f, a...)) }
 	before := DirListing(root)
@@ -567,7 +661,7 @@ func TestC12(t *testing.T) {
 		}
 		content, _ := base64.StdEncoding.DecodeString(lc.FileB64)
 		for rep := 0; rep < 6; rep++ {
-			if v, _ := checkLogFile(content, lc.Legacy, lc.IDs); len(v) > 0 {
+			if v, _ := checkLogFile(content, lc.Legacy, lc.IDs, lc.StaleTmp); len(v) > 0 {
 				t.Fatalf("REPLAY-VIOLATION C12: %v", v)
 			}
 		}
@@ -587,6 +681,7 @@ func TestC12(t *testing.T) {
 			return
 		}
 		content, ids, how := baseLog(rt, s)
+		c12IDs = ids
 		var applied []string
 		for n := oneOf(rt, []int{0, 1, 1, 1, 2, 2, 3}, "mutations"); n > 0; n-- {
 			m := oneOf(rt, logMutators, "mutator")
@@ -594,13 +689,18 @@ func TestC12(t *testing.T) {
 			applied = append(applied, m.name)
 		}
 		legacy := pct(rt, 15, "legacy")
-		viol, reached := checkLogFile(content, legacy, ids)
+		staleTmp := 0
+		if pct(rt, 15, "stale.tmp") {
+			staleTmp = 1 + uni(rt, 999, "stale.tmp.permille")
+			stats.Label("stale_temp_file_next_to_the_log")
+		}
+		viol, reached := checkLogFile(content, legacy, ids, staleTmp)
 		if len(viol) > 0 {
 			var vs []Violation
 			for _, m := range viol {
 				vs = append(vs, Violation{"C12", m})
 			}
-			WriteReplay(replayPath, LogCase{Property: "C12", Engine: "LOGS", Test: "TestC12", FileB64: base64.StdEncoding.EncodeToString(content), Legacy: legacy, IDs: ids, Mutations: applied, Violations: vs, Preview: clip(string(content), 1500)})
+			WriteReplay(replayPath, LogCase{Property: "C12", Engine: "LOGS", Test: "TestC12", FileB64: base64.StdEncoding.EncodeToString(content), Legacy: legacy, IDs: ids, Mutations: applied, StaleTmp: staleTmp, Violations: vs, Preview: clip(string(content), 1500)})
 			rt.Fatalf("C12 violated: %v", viol)
 		}
 		stats.Eval()
